@@ -7,6 +7,7 @@ import (
 	"go/types"
 	"os"
 	"path/filepath"
+	"runtime"
 	"sort"
 	"strings"
 	"sync"
@@ -605,6 +606,19 @@ func readJSON(path string, v any) error {
 	return json.Unmarshal(b, v)
 }
 
+// machineOverloaded: the 1-minute load average exceeds the number of CPUs (Linux; false when it cannot be read).
+func machineOverloaded() bool {
+	b, err := os.ReadFile("/proc/loadavg")
+	if err != nil {
+		return false
+	}
+	var l1 float64
+	if _, err := fmt.Sscan(string(b), &l1); err != nil {
+		return false
+	}
+	return l1 > float64(runtime.NumCPU())
+}
+
 func cmdCheck(args []string) int {
 	fs := flag.NewFlagSet("check", flag.ExitOnError)
 	prop := fs.String("property", "", "property id")
@@ -813,6 +827,32 @@ func cmdCheck(args []string) int {
 			}(o)
 		}
 		rwg.Wait()
+		// an overloaded machine (more runnable processes than cores) stretches every proof: what is still undecided then
+		// gets one more attempt, two at a time, with a 12x limit, before it may be reported. On an idle machine nothing
+		// changes (a real violation is reported after the 4x retry as before).
+		if machineOverloaded() {
+			rsem2 := make(chan struct{}, 2)
+			for _, o := range again {
+				if o.Status != "undecided" {
+					continue
+				}
+				rwg.Add(1)
+				go func(o *Obligation) {
+					defer rwg.Done()
+					rsem2 <- struct{}{}
+					defer func() { <-rsem2 }()
+					res := solve(o.script(), timeout*12, nil)
+					if res.Status == "unsat" {
+						o.Result = res
+						o.Status = "discharged"
+					} else if res.Status == "sat" {
+						o.Result = res
+						o.Status = "failed"
+					}
+				}(o)
+			}
+			rwg.Wait()
+		}
 	}
 	total, discharged, covers := 0, 0, 0
 	var violations []string
